@@ -133,7 +133,7 @@ public:
 /// Fix message reader
 class FIXReader : public AsyncSocket<f8String>
 {
-	enum { _max_msg_len = FIX8_MAX_MSG_LENGTH, _chksum_sz = 7 };
+	enum { _max_msg_len = FIX8_MAX_MSG_LENGTH, _chksum_sz = 7, _max_bodylen_digits = 10 };
 	f8_atomic<bool> _socket_error;
 
 	f8_thread<FIXReader> _callback_thread;
